@@ -322,7 +322,7 @@ class Engine(EngineBase, Generic[VarType]):
             args_out,
             names_in,
             names_out,
-            {"allow_duplicate_io_names": True, "cse": True},
+            {"allow_duplicate_io_names": True},
         )
 
     def __str__(self) -> str:
